@@ -289,12 +289,13 @@ def task_curve_history():
                     cur["W"] = None
                 elif label == "points-replaced":
                     cur["P"] = P2
-            got = c(tuple(us))
+            got = c(tuple(us))          # the FIRST call after the change repeats exactly the LAST call before it
             got1 = c(us[1])
+            again = c(tuple(us))          # (and leaves the sequence call as the last one before the next change)
             want = [spec.curve_value(cur["U"], p, cur["P"], u, cur["W"]) for u in us]
             if label == "knot-inserted":
                 want = [spec.curve_value(list(U), p, P2, u, None) for u in us]
-            if list(got) != want or got1 != want[1] or any(isinstance(x, float) for x in got):
+            if list(got) != want or list(again) != want or got1 != want[1] or any(isinstance(x, float) for x in got):
                 bad = "after '%s': curve(us) = %s, expected %s" % (label, [str(x) for x in got][:4], [str(x) for x in want][:4])
                 break
         out.append(ob("%s:history[%s]" % (fn, name), fn, FAILED if bad else PROVED, "B", "concrete", 0.0,
